@@ -1321,6 +1321,9 @@ func (st *Runtime) evalPipelineExpression(node *PipeNode) (value reflect.Value, 
 }
 
 func (st *Runtime) evaluateArgs(fnType reflect.Type, args CallArgs, pipedArg *reflect.Value) ([]reflect.Value, error) {
+	if args.HasPipeSlot && pipedArg == nil {
+		return nil, fmt.Errorf("pipe slot marker ('_') in call to %s, but no value is piped into it", fnType)
+	}
 	numArgs := len(args.Exprs)
 	if !args.HasPipeSlot && pipedArg != nil {
 		numArgs++
